@@ -61,3 +61,39 @@ Theorem C03_presents_tagb_sound :
   forall reveal mark tbl R s, presents_tagb reveal mark tbl R s = false -> ~ presents_tag reveal mark tbl R s.
 Proof. exact presents_tagb_sound. Qed.
 Print Assumptions C03_presents_tagb_sound.
+
+(* The boundary of the two theorems above: they are about a peer that keeps its side open.  When the
+   PEER itself ends the connection before the deadline - a FIN (Read returns io.EOF) or a reset,
+   at instant tf after its last chunk - the station does not hold the connection until D: every
+   Read-error branch of the loop and the drain (io.Copy) return, so the handler returns (its caller
+   closes) at tf.  Still: nothing is written, everything the peer sent has been read, the return is
+   never BEFORE the peer's own close, and the reaction does not depend on content or registry
+   (C03_peer_close_identical).  The property's "does not close before its deadline" is therefore
+   established for connections the peer keeps open (content, length and pacing of the data being
+   arbitrary), and "closes when the peer closes" is what the code does otherwise. *)
+Theorem C03_peer_close_answered_at_once :
+  forall (reveal : bytes -> list bytes) (mark : reginfo -> bytes -> bytes) (hs_ok : reginfo -> bytes -> bool)
+         (tbl : list pfx) (R : registry) (tracked : nat) (ts : list tid) (drain_cap : nat) (D : N)
+         (script : list (N * bytes)) (tf : N) (e : rerr),
+    prefix_table_wfb tbl = true ->
+    paced_until 0%N script tf -> (tf < D)%N ->
+    ~ presents_tag reveal mark tbl R (stream_of script) ->
+    let tr := run_end (cwrap reveal mark hs_ok tbl R) drain_cap D tracked ts script tf e in
+    only_reads_until_peer_close D tf e tr /\
+    (forall tau, read_by tr tau = arrived_by script tau).
+Proof. exact peer_close_answered_at_once. Qed.
+Print Assumptions C03_peer_close_answered_at_once.
+
+Theorem C03_peer_close_identical :
+  forall (reveal : bytes -> list bytes) (mark : reginfo -> bytes -> bytes) (hs_ok : reginfo -> bytes -> bool)
+         tbl1 tbl2 R1 R2 tracked1 tracked2 ts1 ts2 cap1 cap2 D script1 script2 tf e,
+    prefix_table_wfb tbl1 = true -> prefix_table_wfb tbl2 = true ->
+    paced_until 0%N script1 tf -> paced_until 0%N script2 tf -> (tf < D)%N ->
+    shape script1 = shape script2 ->
+    ~ presents_tag reveal mark tbl1 R1 (stream_of script1) ->
+    ~ presents_tag reveal mark tbl2 R2 (stream_of script2) ->
+    let tr1 := run_end (cwrap reveal mark hs_ok tbl1 R1) cap1 D tracked1 ts1 script1 tf e in
+    let tr2 := run_end (cwrap reveal mark hs_ok tbl2 R2) cap2 D tracked2 ts2 script2 tf e in
+    non_reads tr1 = non_reads tr2 /\ (forall tau, read_by tr1 tau = read_by tr2 tau).
+Proof. exact peer_close_identical. Qed.
+Print Assumptions C03_peer_close_identical.
